@@ -24,7 +24,7 @@ TBegin == /\ IsEvent("Init")
           /\ LET e == TraceLog[l] IN
              /\ nonce' = <<e.st.nonce[1], e.st.nonce[2]>> /\ bal' = <<e.st.bal[1], e.st.bal[2]>>
              /\ pool' = e.pool /\ gu' = 0 /\ gr' = 0 /\ mode' = e.mode /\ dead' = FALSE
-             /\ last' = [kind |-> "none"] /\ hist' = <<>>
+             /\ last' = [kind |-> "none"] /\ hist' = <<>> /\ UNCHANGED sig
 
 ConcOf(e) == [s |-> e.tx.s, nonce |-> e.tx.nonce, price |-> e.tx.price, limit |-> e.tx.limit, value |-> e.tx.value,
               to |-> e.tx.to, pay |-> e.tx.pay, intr |-> Intrinsic(e.tx.to, e.tx.nz, e.tx.z), mv |-> e.tx.mv]
@@ -52,8 +52,19 @@ TApply == /\ IsEvent("Apply")
              /\ bal' = <<e.post.bal[1], e.post.bal[2]>>
              /\ pool' = e.pool[2] /\ gu' = e.hdr[2] /\ gr' = e.hdr[4]
 
+\* signature part: one decoded object resolved under a sequence of signers; the model (cache keyed by signer equality)
+\* must predict whether the answer is the key holder
+TResolve == /\ IsEvent("Resolve")
+            /\ LET e == TraceLog[l]
+                   s0 == IF e.step = 1 THEN NewObject(e.cls, e.mut) ELSE sig
+                   s1 == ResolveOn(s0, e.signer) IN
+               /\ sig' = s1
+               /\ (s1.res[Len(s1.res)].ans = "same") <=> (e.res = "same")
+               /\ (s1.res[Len(s1.res)].ans = "err") => (e.res = "err")
+            /\ UNCHANGED <<nonce, bal, pool, gu, gr, mode, dead, last, hist>>
+
 TInit == Init /\ l = 1 /\ TLCSet(1, 0)
-TNext == TReset \/ TBegin \/ TApply
+TNext == TReset \/ TBegin \/ TApply \/ TResolve
 TSpec == TInit /\ [][TNext]_tvars
 
 HighWater == /\ TLCSet(1, IF TLCGet(1) < l THEN l ELSE TLCGet(1))
